@@ -32,8 +32,9 @@ Proof. induction l as [|[a b] l IH]; cbn [unpairs length]; lia. Qed.
 
 (* the TJSAMP grid of the destination level divides the destination iMCU grid *)
 Definition div_ok (jcs : Z) (facs : list (Z * Z)) : bool :=
+  let s := get_subsamp_l jcs facs in       (* evaluated once per layout *)
   forallb (fun gray => forallb (fun op =>
-      let d := get_dst_subsamp (get_subsamp_l jcs facs) gray op in
+      let d := get_dst_subsamp s gray op in
       (d =? -1) || ((fst (layout_imcu jcs facs gray op) mod tj_mcu_w d =? 0) &&
                     (snd (layout_imcu jcs facs gray op) mod tj_mcu_h d =? 0) && (0 <? tj_mcu_w d) && (0 <? tj_mcu_h d)))
     all_xops) [false; true].
